@@ -94,21 +94,31 @@ theorem c09_prefix_oob_witness :
 
 
 /-- Data that does not fit is dropped cleanly: the record is the bare 16-byte header with the
-    `more` bit clear (so the reader does not look for a payload, see `c09_framing_preserved`),
-    and with the repaired writer nothing outside the slice was touched while finding that out. -/
-theorem c09_too_big_is_clean (fx : Fix) (c : Call) (h : packArgs fx c.chosen c.vals c.m0 = .error .tooBig) :
-    c.bytes fx = hdrBytes c.time c.type false c.depth c.addr ∧ (c.bytes fx).length = 16 ∧
-    (packRun fx c.chosen c.vals (St.init c.m0)).mem.hi ≤ SLICE := by
-  have hp : c.payload fx = none := by unfold Call.payload; rw [h]
-  refine ⟨?_, ?_, ?_⟩
-  · unfold Call.bytes recordBytes; rw [hp]
-  · unfold Call.bytes recordBytes hdrBytes; rw [hp]; simp
-  · unfold packArgs at h
-    simp only at h
+    `more` bit clear (so the reader does not look for a payload and the next record is decoded
+    correctly, see `c09_framing_preserved`); and `tooBig` is only ever reported when no byte
+    outside the slice was written while finding that out (the other outcome, `oob`, exists for
+    today's writer only: `c09_prefix_oob_witness`, `c09_pack_in_bounds`). -/
+theorem c09_too_big_is_clean (fx : Fix) (c : Call) :
+    (accepted fx c.chosen c.vals c.m0 = none →
+      c.bytes fx = hdrBytes c.time c.type false c.depth c.addr ∧ (c.bytes fx).length = 16) ∧
+    (packArgs fx c.chosen c.vals c.m0 = .error .tooBig →
+      accepted fx c.chosen c.vals c.m0 = none ∧ (packRun fx c.chosen c.vals (St.init c.m0)).mem.hi ≤ SLICE) := by
+  constructor
+  · intro h
+    have hp : c.payload fx = none := h
+    refine ⟨?_, ?_⟩
+    · unfold Call.bytes recordBytes; rw [hp]
+    · unfold Call.bytes recordBytes hdrBytes; rw [hp]; simp
+  · intro h
+    unfold packArgs at h
+    unfold accepted
+    simp only at h ⊢
     split at h
     · cases h
-    · omega
-
+    · split at h
+      · rename_i h1 h2
+        exact ⟨by rw [if_pos h2], by omega⟩
+      · cases h
 
 example : packArgs Fix.all [⟨1, .strct, 2000, 0, 0, []⟩] [.blob []] ⟨fun _ => 0, 0⟩ = .error .tooBig := rfl
 
@@ -198,5 +208,41 @@ theorem c09_prefix_null_witness :
     renderVal ⟨1, .str, 8, 0, 0, []⟩ (obs Fix.none ⟨1, .str, 8, 0, 0, []⟩ .null) = [34, 78, 85, 76, 76, 34] := by
   refine ⟨by decide, by decide⟩
 
+
+/-! ### from the register to the reader -/
+
+/-- An integer argument passed in a register (arg1 … arg6 = rdi, rsi, rdx, rcx, r8, r9), of any
+    size 1..8 and any integer / pointer / float-bits format, goes through the fetcher, the packer
+    and both readers as exactly the low `size` bytes of the register: the value shown is the value
+    passed (whatever is in the other registers, on the stack and in the buffer). -/
+theorem c09_int_arg_captured (fx : Fix) (m : Machine) (sp : Spec) (m0 : Mem)
+    (hty : sp.ty = 0) (hidx : 1 ≤ sp.idx ∧ sp.idx ≤ 6)
+    (hfmt : sp.isStr = false ∧ sp.fmt ≠ .strct ∧ sp.fmt ≠ .chr) (hsz : 1 ≤ sp.size ∧ sp.size ≤ 8) :
+    ∃ p, captured fx m false [sp] m0 = .ok p ∧
+      decodeVals [sp] p = [.int (m.regs.getD (sp.idx - 1) 0 % 256 ^ sp.size)] := by
+  obtain ⟨hns, hst, hchr⟩ := hfmt
+  have hf1 : sp.fmt ≠ .str := by intro h; unfold Spec.isStr at hns; rw [h] at hns; simp at hns
+  have hf2 : sp.fmt ≠ .stdstr := by intro h; unfold Spec.isStr at hns; rw [h] at hns; simp at hns
+  have hreg : getRegArg m 0 sp.ty sp.idx sp.loc sp.size = (m.regs.getD (sp.idx - 1) 0 % 256 ^ 8, true) := by
+    unfold getRegArg
+    rw [hty]
+    simp [hidx.1, hidx.2, setLow_zero]
+  have hfetch : fetchAll fx m false [sp] 0 = [.word (m.regs.getD (sp.idx - 1) 0 % 256 ^ 8)] := by
+    simp [fetchAll, fetch, hst, hreg, hf1, hf2]
+  unfold captured
+  rw [sel_single_arg sp hidx.1, hfetch]
+  obtain ⟨p, hp⟩ := single_word_ok fx sp hns hst (by omega) (m.regs.getD (sp.idx - 1) 0 % 256 ^ 8) m0
+  have hwf : WF sp := ⟨fun h => by rw [hns] at h; exact absurd h (by decide), fun h => absurd h hchr⟩
+  obtain ⟨_, hd⟩ := c09_parse_pack fx [sp] [.word (m.regs.getD (sp.idx - 1) 0 % 256 ^ 8)] m0 p [] rfl
+    (by intro x hx; simp at hx; subst hx; exact hwf)
+    (by intro x hx; simp at hx; subst hx; intro s hs; cases hs) hp
+  refine ⟨p, hp, ?_⟩
+  rw [hd]
+  simp only [List.zip_cons_cons, List.zip_nil_right, List.map_cons, List.map_nil, obs, hns, Bool.false_eq_true,
+    if_false, if_neg hchr, if_neg hst, Val.asWord]
+  congr 2
+  exact Nat.mod_mod_of_dvd _ (Nat.pow_dvd_pow 256 hsz.2)
+
+example : (⟨3, .hex, 4, 0, 0, []⟩ : Spec).ty = 0 ∧ (⟨3, .hex, 4, 0, 0, []⟩ : Spec).isStr = false := by decide
 
 end Uft.C09
